@@ -152,3 +152,30 @@ package syncer
 //@   trusted
 //@   modifies ghost_last, ghost_lastApp, ghost_unpub, ghost_uncap, ghost_pend
 //@   ensures app: appHavocRel(old(ghost_last), ghost_last, old(ghost_lastApp), ghost_lastApp, old(ghost_unpub), ghost_unpub, old(ghost_uncap), ghost_uncap, old(ghost_pend), ghost_pend)
+
+// Configuration is fixed when the Syncer is constructed.
+//@ immutable Syncer.c, Syncer.lc, Syncer.opt, Syncer.name
+
+//@ func (s *Syncer) instanceID
+//@   trusted
+//@   pure
+
+//@ func (s *Syncer) generationID
+//@   trusted
+//@   pure
+
+//@ func (s *Syncer) SendOnce
+//@   requires inv: ghostInv()
+//@   requires not_in_txn: ghost_inTxn == 0
+//@   requires retry_budget: s.c.StorageRetryCount >= 1 || s.c.StorageRetryForever
+//@   modifies *
+//@   loop 0 invariant not_stored: ghost_nstore == old(ghost_nstore)
+//@   loop 0 invariant inv: ghostInv()
+//@   loop 0 invariant not_in_txn: ghost_inTxn == 0
+//@   loop 0 invariant retry: i != 0 ==> err != nil
+//@   ensures inv: ghostInv()
+//@   ensures ret_le_last: err == nil ==> uint64(txnID) <= ghost_last
+//@   ensures nil_only_if_stored: err == nil && !s.opt.ReceiveOnly ==> ghost_nstore == old(ghost_nstore) + 1
+//@   ensures ret_below_unpub: err == nil && !s.opt.ReceiveOnly ==> uint64(txnID) < ghost_unpub
+//@   ensures ret_below_uncap: err == nil && !s.lc.SchemaTracksChanges ==> uint64(txnID) < ghost_uncap
+//@   ensures receive_only_no_store: s.opt.ReceiveOnly ==> ghost_nstore == old(ghost_nstore)
